@@ -6,7 +6,7 @@
 (a) unchanged tree: extraction + `./lk Earverif.Props.Kernels` succeed, every theorem checks;
 (b) per kernel, in a scratch worktree of /repo (EAR_REPO mode: private copy of the Lean project), one small
     semantic mutation of that kernel's source: the build of Props/Kernels must FAIL and the failing theorems
-    must be exactly that kernel's;
+    must be that kernel's (and, where one Python function feeds several kernels, only theirs);
 (c) per kernel, one behaviour-preserving textual edit: reports whether the equality still checks;
     extra cases show preserving edits that are known to break the equality (a broken equality without a
     failing input is reported by the framework as `no-failing-input-found`);
@@ -134,6 +134,140 @@ CASES = {
         expect="holds", why="comparison flipped, int literal -> float literal"),
 }
 
+# ---- round 2
+WR = "ear/fileio/bw64/writer.py"
+HOA = "ear/core/hoa.py"
+OBR = "ear/core/objectbased/renderer.py"
+CONVOLVER = "ear/core/convolver.py"
+CV = "ear/core/objectbased/conversion.py"
+GEOM = "ear/core/geom.py"
+TF = "ear/fileio/adm/timing_fixes.py"
+AE = "ear/core/objectbased/allo_extent.py"
+IAR = ["inside_angle_range", "inside_angle_range_rat", "inside_angle_range_ds"]
+HASIL = ["has_interpolationLength", "check_duration", "clamp_end"]
+CASES.update({
+    "read_chunks_step": dict(
+        file=RD,
+        # the seeded rewrite: differs only for the 0xFFFFFFFF placeholder (and sizes >= 2**32)
+        mutation=[("self._buffer.seek(chunkSize + (chunkSize & 1), 1)", "self._buffer.seek((chunkSize + 1) & 0xFFFFFFFE, 1)")],
+        preserving=[("self._buffer.seek(chunkSize + (chunkSize & 1), 1)", "self._buffer.seek((chunkSize % 2) + chunkSize, 1)"),
+                    ("            if chunk_end > self._file_len:", "            if self._file_len < chunk_end:")],
+        expect="holds", why="`& 1` -> `% 2`, sum commuted, comparison flipped"),
+    "close_pad_test": dict(
+        file=WR,
+        mutation=[("if self._dataBytesWritten & 1:", "if self._dataBytesWritten & 2:")],
+        preserving=[("if self._dataBytesWritten & 1:", "if self._dataBytesWritten % 2 == 1:")],
+        expect="holds", why="`x & 1` (truth value) -> `x % 2 == 1`"),
+    "close_bw64_test": dict(
+        file=WR,
+        mutation=[("if(riffChunkSize >= 2**32) or self._forceBw64:", "if(riffChunkSize > 2**32) or self._forceBw64:")],
+        preserving=[("if(riffChunkSize >= 2**32) or self._forceBw64:", "if self._forceBw64 or 0x100000000 <= riffChunkSize:")],
+        expect="holds", why="operands of `or` swapped, comparison flipped, hex literal"),
+    "calc_riff_chunk_size": dict(
+        file=WR,
+        mutation=[("riffChunkSize = self._buffer.tell() - 8", "riffChunkSize = self._buffer.tell() - 4")],
+        preserving=[("        last_position = self._buffer.tell()\n        self._buffer.seek(0, 2)\n        riffChunkSize = self._buffer.tell() - 8\n        self._buffer.seek(last_position)\n        return riffChunkSize",
+                     "        saved = self._buffer.tell()\n        self._buffer.seek(0, 2)\n        size = self._buffer.tell()\n        self._buffer.seek(saved)\n        return size - 8")],
+        expect="holds", why="locals renamed, subtraction moved after the seek back"),
+    "to_acn": dict(
+        file=HOA, mutation=[("return n*n + n + m", "return n*n + n - m")],
+        preserving=[("return n*n + n + m", "return m + n * (n + 1)")], expect="holds", why="factored (re-proved by grind)"),
+    "from_acn": dict(
+        file=HOA, mutation=[("m = acn - n*n - n", "m = acn - n*n + n")],
+        preserving=[("m = acn - n*n - n", "m = acn - (n*n + n)")], expect="holds", why="re-associated (re-proved by grind)"),
+    "decorrelator_delay": dict(
+        file=OBR, mutation=[("decorrelator_delay = (decorrelation_filters.shape[0] - 1) // 2", "decorrelator_delay = decorrelation_filters.shape[0] // 2")],
+        preserving=[("        decorrelator_delay = (decorrelation_filters.shape[0] - 1) // 2",
+                     "        n_taps = decorrelation_filters.shape[0]\n        decorrelator_delay = (n_taps - 1) // 2")],
+        expect="holds", why="local introduced"),
+    "vbs_delay": dict(
+        file=CONVOLVER, mutation=[("return self.block_size + process_delay", "return self.block_size + process_delay + 1")],
+        preserving=[("return self.block_size + process_delay", "return process_delay + self.block_size")],
+        expect="holds", why="sum commuted (re-proved by grind)"),
+    "stereo_level": dict(
+        file=PS, mutation=[("pv_dmix *= 0.5 ** (0.5 * back / (front + back))", "pv_dmix *= 0.5 ** (0.5 * front / (front + back))")],
+        preserving=[("pv_dmix *= 0.5 ** (0.5 * back / (front + back))", "pv_dmix *= 0.5 ** ((0.5 * back) / (front + back))")],
+        expect="holds", why="redundant parentheses (same AST)"),
+    "map_az_to_linear": dict(
+        file=CV, mutation=[("gain_r = 0.5 + 0.5 * np.tan(", "gain_r = 0.5 - 0.5 * np.tan(")],
+        preserving=[("        rel_az = azimuth - mid_az\n\n        gain_r = 0.5 + 0.5 * np.tan(np.radians(rel_az)) /",
+                     "        ra = azimuth - mid_az\n\n        gain_r = 0.5 + 0.5 * np.tan(np.radians(ra)) /")],
+        expect="holds", why="local renamed"),
+    "map_linear_to_az": dict(
+        file=CV, mutation=[("rel_az = np.degrees(np.arctan(2 * (gain_r - 0.5) *", "rel_az = np.degrees(np.arctan(2 * (gain_r + 0.5) *")],
+        preserving=[("        gain_l_, gain_r_ = np.cos(x * (np.pi / 2)), np.sin(x * (np.pi / 2))",
+                     "        gain_l_ = np.cos(x * (np.pi / 2))\n        gain_r_ = np.sin(x * (np.pi / 2))")],
+        expect="holds", why="tuple assignment split"),
+    "el_to_cart": dict(
+        file=CV, mutation=[("            z = d * np.sign(el)", "            z = d")],
+        preserving=[("        if np.abs(el) > self.el_top:", "        if self.el_top < np.abs(el):")],
+        expect="holds", why="comparison flipped"),
+    "el_to_polar": dict(
+        file=CV, mutation=[("            d = np.abs(z)", "            d = z")],
+        preserving=[("        if np.abs(el_tilde) > self.el_top_tilde:", "        if self.el_top_tilde < np.abs(el_tilde):")],
+        expect="holds", why="comparison flipped"),
+    "relative_angle": dict(
+        file=GEOM, mutation=[("    while y - 360.0 >= x:", "    while y - 360.0 > x:")],
+        preserving=[("    while y - 360.0 >= x:\n        y -= 360.0", "    while x <= y - 360.0:\n        y = y - 360.0")],
+        expect="holds", why="comparison flipped, augmented assignment expanded"),
+    "inside_angle_range": dict(
+        file=GEOM, also=IAR, mutation=[("    return x <= end + tol", "    return x < end + tol")],
+        preserving=[("    while end < start:", "    while start > end:")], expect="holds", why="comparison flipped"),
+    "inside_angle_range_rat": dict(
+        file=GEOM, also=IAR, mutation=[("    while end - 360.0 > start:", "    while end - 360.0 >= start:")],
+        preserving=[("    start_tol = start - tol\n    while x - 360.0 >= start_tol:", "    start_tol = start - tol\n    while start_tol <= x - 360.0:")],
+        expect="holds", why="comparison flipped"),
+    "inside_angle_range_ds": dict(
+        file=GEOM, also=IAR, mutation=[("    start_tol = start - tol", "    start_tol = start + tol")],
+        preserving=[("    while x < start_tol:\n        x += 360.0", "    while x < start_tol:\n        x = x + 360.0")],
+        expect="holds", why="augmented assignment expanded"),
+    "has_interpolationLength": dict(
+        file=TF, also=HASIL, mutation=[("        and blockFormat.jumpPosition.flag", "        or blockFormat.jumpPosition.flag")],
+        preserving=[("        isinstance(blockFormat, AudioBlockFormatObjects)\n        and blockFormat.jumpPosition.flag\n        and blockFormat.jumpPosition.interpolationLength is not None",
+                     "        isinstance(blockFormat, AudioBlockFormatObjects)\n        and blockFormat.jumpPosition.interpolationLength is not None\n        and blockFormat.jumpPosition.flag")],
+        expect="holds", why="conjuncts reordered (the helper is inlined into check_duration/clamp_end too)"),
+    "check_duration": dict(
+        file=TF, mutation=[("                and old_duration >= bf_a.jumpPosition.interpolationLength", "                and old_duration > bf_a.jumpPosition.interpolationLength")],
+        preserving=[("    if old_duration != new_duration:", "    if new_duration != old_duration:")],
+        expect="holds", why="operands of != swapped"),
+    "clamp_end": dict(
+        file=TF, mutation=[("            if shift >= blockFormat.duration:", "            if shift > blockFormat.duration:")],
+        preserving=[("                blockFormat.duration -= shift", "                blockFormat.duration = blockFormat.duration - shift")],
+        expect="holds", why="augmented assignment to the attribute expanded"),
+    "extent_mod": dict(
+        file=GC, mutation=[("        min_size = 0.2", "        min_size = 0.25")],
+        preserving=[("        extent_1 = 4 * np.degrees(np.arctan2(size, 1.0))\n        return np.interp(4 * np.degrees(np.arctan2(size, distance)),\n                         [0, extent_1, 360.0],",
+                     "        e1 = 4 * np.degrees(np.arctan2(size, 1.0))\n        return np.interp(4 * np.degrees(np.arctan2(size, distance)),\n                         [0, e1, 360.0],")],
+        expect="holds", why="local renamed"),
+    "fade_gains": dict(
+        file=AE, mutation=[("        alpha = 0.0\n        beta = 1.0", "        alpha = 0.5\n        beta = 1.0")],
+        preserving=[("    if s_eff < s_fade:", "    if s_fade > s_eff:")], expect="holds", why="comparison flipped"),
+    "lock_tol": dict(
+        file=GC, mutation=[("        tol = 1e-5", "        tol = 1e-6")],
+        preserving=[("        tol = 1e-5", "        tol = 0.00001")], expect="holds", why="same double, written differently"),
+    "lock_possible_test": dict(
+        file=GC, mutation=[("possible = (distances < channelLock.maxDistance + tol", "possible = (distances <= channelLock.maxDistance + tol")],
+        preserving=[("possible = (distances < channelLock.maxDistance + tol", "possible = (tol + channelLock.maxDistance > distances")],
+        expect="holds", why="sum commuted, comparison flipped (re-proved by grind)"),
+    "lock_closest_test": dict(
+        file=GC, mutation=[("all_closest = np.where(distances_w < min_dist + tol)[0]", "all_closest = np.where(distances_w <= min_dist + tol)[0]")],
+        preserving=[("all_closest = np.where(distances_w < min_dist + tol)[0]", "all_closest = np.where(tol + min_dist > distances_w)[0]")],
+        expect="holds", why="sum commuted, comparison flipped (re-proved by grind)"),
+    "zone_epsilon": dict(
+        file=GC, mutation=[("        epsilon = 1e-6", "        epsilon = 1e-5")],
+        preserving=[("        epsilon = 1e-6", "        epsilon = 0.000001")], expect="holds", why="same double, written differently"),
+    "zone_cart_test": dict(
+        file=GC, mutation=[("(self.positions[:, 0] + epsilon > zone.minX) &", "(self.positions[:, 0] + epsilon >= zone.minX) &")],
+        preserving=[("                    (self.positions[:, 0] - epsilon < zone.maxX) &\n                    (self.positions[:, 1] - epsilon < zone.maxY) &",
+                     "                    (self.positions[:, 1] - epsilon < zone.maxY) &\n                    (zone.maxX > self.positions[:, 0] - epsilon) &")],
+        expect="holds", why="conjuncts swapped, comparison flipped"),
+    "zone_polar_test": dict(
+        file=GC, mutation=[("(np.abs(self.elevations) > 90.0 - epsilon) |", "(np.abs(self.elevations) > 90.0 + epsilon) |")],
+        preserving=[("                    (self.elevations - epsilon < zone.maxElevation) &\n                    (self.elevations + epsilon > zone.minElevation) &",
+                     "                    (self.elevations + epsilon > zone.minElevation) &\n                    (self.elevations - epsilon < zone.maxElevation) &")],
+        expect="holds", why="conjuncts swapped"),
+})
+
 # extra behaviour-preserving (over the reals) edits that are EXPECTED to break the equality, with the reason
 EXTRA = [
     dict(kernel="direct_diffuse_split", file=GC, kind="preserving",
@@ -156,6 +290,12 @@ EXTRA = [
     dict(kernel="pcm_encode_scaled", file=UT, kind="mutation",
          edits=[("    scaledSamples = samples * (2**(bitdepth - 1) - 1)", "    samples.sort()\n    scaledSamples = samples * (2**(bitdepth - 1) - 1)")],
          expect="breaks", why="a call statement on a name the slice depends on (possible in-place change) -> refused"),
+    dict(kernel="relative_angle", file="ear/core/geom.py", kind="mutation",
+         edits=[("    while y - 360.0 >= x:\n        y -= 360.0", "    while y - 360.0 >= x:\n        y -= 360.0\n        if y < -1e6:\n            break")],
+         expect="breaks", why="a `while` body with anything but assignments to names (here if/break) -> refused"),
+    dict(kernel="read_chunks_step", file=RD, kind="mutation",
+         edits=[("            if chunk_end > self._file_len:", "            if chunk_end ^ 1 > self._file_len:")],
+         expect="breaks", why="`^` (xor) is not in the whitelist -> refused"),
     dict(kernel="is_lfe", file=RC, kind="mutation",
          edits=[("            frequency.highPass is None):\n        return True", "            frequency.highPass is None):\n        return 1.0")],
          expect="breaks", why="translates, but the Lean def is ill-typed (number where a Bool is returned): stubbed by the type-check pass"),
@@ -289,7 +429,8 @@ def main():
                 print("   %-22s ERROR %s" % (n, r["error"][-300:]))
                 bad += 1
                 continue
-            good = (not r["props_build"]) and r["failing"] == thm[n]
+            allowed = set(t for m in CASES[n].get("also", [n]) for t in thm[m]) | set(thm[n])
+            good = (not r["props_build"]) and bool(set(r["failing"]) & set(thm[n])) and set(r["failing"]) <= allowed
             if not good:
                 bad += 1
             print("   %-22s %s  build=%s failing=%s%s  (extract %.1fs build %.1fs)" % (
@@ -323,7 +464,7 @@ def main():
                 bad += 1
                 continue
             outcome = "holds" if r["props_build"] and not r["failing"] else "breaks"
-            only_own = r["failing"] in ([], thm[n])
+            only_own = set(r["failing"]) <= set(thm[n])
             if outcome != x["expect"] or not only_own:
                 bad += 1
             print("   %-22s [%s] equality %s (expected %s) failing=%s%s\n   %22s   %s" % (
